@@ -269,7 +269,12 @@ class spec_class:
 
             def __new__(cls, *args, **kwargs):
                 # Bootstrap spec class (looking at the __spec_class__ does this automatically)
-                if not isinstance(cls.__spec_class__, SpecClassMetadata):
+                # (Of the class being instantiated *and* of this wrapper's own
+                # class: with several spec-class bases the former resolves to
+                # the first base's metadata only.)
+                if not isinstance(
+                    cls.__spec_class__, SpecClassMetadata
+                ) or not isinstance(spec_cls.__spec_class__, SpecClassMetadata):
                     raise RuntimeError(
                         "Something has gone wrong! Please report this."
                     )  # pragma: no cover; We should never see this.
